@@ -317,6 +317,21 @@ func (c *Ctx) rulesC10() {
 		c.check(mism, "C10.chk", "checksum mismatch returns false", f.Pos(), "a drifted mirror must reject the update (return false) so that the caller falls back to a full sync")
 	}
 	c.floor("C10.chk", 4)
+
+	// C10.chain
+	c.rule("C10.chain", "calcUpdateMutations ships one update per traced mutation: from the calcUpdate call every path to the next iteration appends to Updates (a skipped link would lose its queue-tick / machine-tick delta because the diff base has already advanced)")
+	if f := c.fn(pr + ":calcUpdateMutations"); f != nil {
+		fUp := c.field(pr, "MsgSrvUpdateMuts", "Updates")
+		cu := c.sitesIn(f, pr+":calcUpdate")
+		c.check(len(cu) == 1, "C10.chain", "calcUpdateMutations computes one diff per mutation", f.Pos(), fmt.Sprintf("%d calcUpdate sites", len(cu)))
+		if len(cu) == 1 && fUp != nil {
+			okc, via := c.iterationPassesThrough(cu[0], func(ins ssa.Instruction) bool {
+				st, ok := ins.(*ssa.Store)
+				return ok && fieldOf(st.Addr) == fUp
+			}, nil)
+			c.check(okc, "C10.chain", "every computed link is appended to Updates", cu[0].Pos(), "a path from calcUpdate to the next iteration skips the append"+via)
+		}
+	}
 }
 
 func isLenOfField(v ssa.Value, fld *types.Var) bool {
